@@ -1,11 +1,13 @@
-(* Proofs about the varint codec of Wire/Model.v *)
+(* Proofs about the varint codec of Wire/WireModel.v *)
 From Coq Require Import List Arith NArith ZArith Lia Bool.
 From Coq Require Import ZifyBool ZifyNat ZifyN.
-From PB Require Import Base.PBytes Wire.WireModel.
+From PB Require Import Base.PBytes Wire.WireModel Wire.WireGrammar.
 Ltac Zify.zify_post_hook ::= Z.div_mod_to_equations.
 Import ListNotations.
 Open Scope N_scope.
 
+(* ------------------------------------------------------------------ *)
+(* round trip                                                          *)
 Lemma dec_enc_aux : forall k v shift acc rest,
   (0 < k)%nat ->
   v < 2^(7 * (N.of_nat k - 1) + 1) ->
@@ -37,4 +39,340 @@ Proof.
   intros Hv. unfold dec_varint, enc_varint.
   rewrite dec_enc_aux; [| lia | exact Hv].
   f_equal. f_equal. change (2^0) with 1. lia.
+Qed.
+
+(* ------------------------------------------------------------------ *)
+(* the decoder accepts exactly the varint grammar                      *)
+Lemma varint_shape_nonempty k p : varint_shape k p -> p <> [].
+Proof. destruct k, p; cbn; intros H; try contradiction; discriminate. Qed.
+
+Lemma varint_shape_len k p : varint_shape k p -> (1 <= length p <= k)%nat.
+Proof.
+  revert p. induction k as [|k IH]; intros p H; [destruct p; contradiction|].
+  destruct p as [|b r]; [contradiction|]. cbn [varint_shape] in H.
+  destruct k as [|k'].
+  - destruct H as [-> _]. cbn. lia.
+  - destruct H as [[_ ->]|[_ H]]; [cbn; lia|]. apply IH in H. cbn [length]. lia.
+Qed.
+
+Lemma varint_shape_mono k p : varint_shape k p -> varint_shape (S k) p.
+Proof.
+  revert p. induction k as [|k IH]; intros p H; [destruct p; contradiction|].
+  destruct p as [|b r]; [contradiction|].
+  cbn [varint_shape] in H. destruct k as [|k'].
+  - destruct H as [-> Hb]. cbn [varint_shape]. left. split; [lia|reflexivity].
+  - change (varint_shape (S (S (S k'))) (b :: r))
+      with ((b2n b < 128 /\ r = []) \/ (128 <= b2n b /\ varint_shape (S (S k')) r)).
+    destruct H as [H|[Hb H]]; [left; exact H|right]. split; [exact Hb|]. apply IH. exact H.
+Qed.
+
+Lemma varint_val_lt p : varint_val p < 128 ^ N.of_nat (length p).
+Proof.
+  induction p as [|b r IH]; [cbn; lia|].
+  cbn [varint_val length]. rewrite Nnat.Nat2N.inj_succ, N.pow_succ_r'.
+  pose proof (N.mod_lt (b2n b) 128). lia.
+Qed.
+
+Lemma dec_aux_sound : forall k shift acc bs v r,
+  dec_varint_aux k shift acc bs = Ok (v, r) ->
+  exists p, bs = p ++ r /\ varint_shape k p /\ v = acc + varint_val p * 2^shift.
+Proof.
+  induction k as [|k IH]; intros shift acc bs v r H; [discriminate|].
+  cbn [dec_varint_aux] in H. destruct bs as [|b t]; [discriminate|].
+  pose proof (b2n_lt b) as Hb.
+  destruct k as [|k'].
+  - destruct (b2n b <? 2) eqn:E; [|discriminate]. inversion H; subst.
+    exists [b]. split; [reflexivity|]. split.
+    + cbn. split; [reflexivity|lia].
+    + cbn [varint_val]. rewrite N.mod_small by lia. f_equal. lia.
+  - destruct (b2n b <? 128) eqn:E.
+    + inversion H; subst. exists [b]. split; [reflexivity|]. split.
+      * cbn [varint_shape]. left. split; [lia|reflexivity].
+      * cbn [varint_val]. rewrite N.mod_small by lia. f_equal. lia.
+    + apply IH in H. destruct H as (p & -> & Hs & ->).
+      exists (b :: p). split; [reflexivity|]. split.
+      * cbn [varint_shape]. right. split; [lia|exact Hs].
+      * cbn [varint_val]. rewrite N.pow_add_r. change (2^7) with 128.
+        replace (b2n b mod 128) with (b2n b - 128) by lia.
+        remember (b2n b - 128) as y. remember (2^shift) as s. lia.
+Qed.
+
+Lemma dec_aux_complete : forall k p shift acc r,
+  varint_shape k p ->
+  dec_varint_aux k shift acc (p ++ r) = Ok (acc + varint_val p * 2^shift, r).
+Proof.
+  induction k as [|k IH]; intros p shift acc r H; [destruct p; contradiction|].
+  destruct p as [|b t]; [contradiction|].
+  pose proof (b2n_lt b) as Hb.
+  cbn [varint_shape] in H. cbn [app dec_varint_aux varint_val].
+  destruct k as [|k'].
+  - destruct H as [-> H2]. replace (b2n b <? 2) with true by lia.
+    cbn [app varint_val]. rewrite N.mod_small by lia. f_equal. f_equal. lia.
+  - destruct H as [[H1 ->]|[H1 H2]].
+    + replace (b2n b <? 128) with true by lia. cbn [app varint_val].
+      rewrite N.mod_small by lia. f_equal. f_equal. lia.
+    + replace (b2n b <? 128) with false by lia.
+      rewrite IH by exact H2. f_equal. f_equal.
+      rewrite N.pow_add_r. change (2^7) with 128.
+      replace (b2n b mod 128) with (b2n b - 128) by lia.
+      remember (b2n b - 128) as y. remember (2^shift) as s. lia.
+Qed.
+
+Theorem dec_varint_sound bs v r :
+  dec_varint bs = Ok (v, r) -> exists p, bs = p ++ r /\ varint_bytes p /\ varint_val p = v.
+Proof.
+  unfold dec_varint. intros H. apply dec_aux_sound in H. destruct H as (p & -> & Hs & ->).
+  exists p. split; [reflexivity|]. split; [exact Hs|]. change (2^0) with 1. lia.
+Qed.
+
+Theorem dec_varint_complete p r :
+  varint_bytes p -> dec_varint (p ++ r) = Ok (varint_val p, r).
+Proof.
+  intros H. unfold dec_varint. rewrite dec_aux_complete by exact H.
+  f_equal. f_equal. change (2^0) with 1. lia.
+Qed.
+
+Theorem dec_varint_iff bs v r :
+  dec_varint bs = Ok (v, r) <-> exists p, bs = p ++ r /\ varint_bytes p /\ varint_val p = v.
+Proof.
+  split; [apply dec_varint_sound|]. intros (p & -> & H & <-). now apply dec_varint_complete.
+Qed.
+
+(* decoded values fit in 64 bits *)
+Lemma varint_shape_val_bound : forall k p,
+  varint_shape k p -> varint_val p < 2^(7 * (N.of_nat k - 1) + 1).
+Proof.
+  induction k as [|k IH]; intros p H; [destruct p; contradiction|].
+  destruct p as [|b t]; [contradiction|]. pose proof (b2n_lt b) as Hb.
+  cbn [varint_shape] in H. cbn [varint_val].
+  destruct k as [|k'].
+  - destruct H as [-> H]. cbn [varint_val]. rewrite N.mod_small by lia.
+    replace (7 * (N.of_nat 1 - 1) + 1) with 1 by lia. change (2^1) with 2. lia.
+  - replace (7 * (N.of_nat (S (S k')) - 1) + 1) with (7 * (N.of_nat (S k') - 1) + 1 + 7) by lia.
+    rewrite N.pow_add_r. change (2^7) with 128.
+    assert (0 < 2 ^ (7 * (N.of_nat (S k') - 1) + 1)) by (apply N.neq_0_lt_0, N.pow_nonzero; discriminate).
+    destruct H as [[H1 ->]|[H1 H2]].
+    + cbn [varint_val]. rewrite N.mod_small by lia. lia.
+    + apply IH in H2. pose proof (N.mod_lt (b2n b) 128). lia.
+Qed.
+
+Lemma varint_bytes_val_bound p : varint_bytes p -> varint_val p < 2^64.
+Proof. intros H. apply varint_shape_val_bound in H. exact H. Qed.
+
+Lemma dec_varint_bound bs v r : dec_varint bs = Ok (v, r) -> v < 2^64.
+Proof. intros H. apply dec_varint_sound in H. destruct H as (p & _ & H & <-). now apply varint_bytes_val_bound. Qed.
+
+(* the declarative reading of [varint_bytes] *)
+Lemma varint_shape_decl : forall k p,
+  varint_shape k p <->
+  exists init last, p = init ++ [last] /\ Forall (fun b => 128 <= b2n b) init /\
+                    (length init < k)%nat /\
+                    b2n last < (if Nat.eqb (S (length init)) k then 2 else 128).
+Proof.
+  induction k as [|k IH]; intros p.
+  - split; [destruct p; contradiction|]. intros (i & l & _ & _ & H & _). lia.
+  - destruct p as [|b t].
+    + split; [contradiction|]. intros (i & l & H & _). destruct i; discriminate.
+    + cbn [varint_shape]. destruct k as [|k'].
+      * split.
+        -- intros [-> H]. exists [], b. cbn. repeat split; auto; lia.
+        -- intros (i & l & H & _ & Hlen & Hl). destruct i; [|cbn in Hlen; lia].
+           cbn in H. inversion H; subst. cbn in Hl. split; [reflexivity|exact Hl].
+      * split.
+        -- intros [[H1 ->]|[H1 H2]].
+           ++ exists [], b. cbn. repeat split; auto; lia.
+           ++ apply IH in H2. destruct H2 as (i & l & -> & HF & Hlen & Hl).
+              exists (b :: i), l. cbn [app length]. repeat split; auto; try lia.
+        -- intros (i & l & H & HF & Hlen & Hl). destruct i as [|b' i'].
+           ++ cbn in H. inversion H; subst. left. cbn in Hl. split; [exact Hl|reflexivity].
+           ++ cbn in H. inversion H; subst. right. inversion HF; subst. split; [assumption|].
+              apply IH. exists i', l. cbn [length] in *. repeat split; auto; try lia.
+Qed.
+
+Theorem varint_bytes_decl p :
+  varint_bytes p <->
+  exists init last, p = init ++ [last] /\ Forall (fun b => 128 <= b2n b) init /\
+                    (length init <= 9)%nat /\
+                    b2n last < (if Nat.eqb (length init) 9 then 2 else 128).
+Proof.
+  unfold varint_bytes. rewrite varint_shape_decl. split; intros (i & l & H1 & H2 & H3 & H4); exists i, l;
+    repeat split; auto; try lia.
+Qed.
+
+(* ------------------------------------------------------------------ *)
+(* shape, value and length of the encoder's output                     *)
+Lemma enc_fuel_shape : forall k v,
+  (0 < k)%nat -> v < 2^(7 * (N.of_nat k - 1) + 1) ->
+  varint_shape k (enc_varint_fuel k v) /\ varint_val (enc_varint_fuel k v) = v.
+Proof.
+  induction k as [|k IH]; intros v Hk Hv; [lia|].
+  cbn [enc_varint_fuel]. destruct k as [|k'].
+  - replace (7 * (N.of_nat 1 - 1) + 1) with 1 in Hv by lia. change (2^1) with 2 in Hv.
+    replace (v <? 128) with true by lia. cbn [varint_shape varint_val].
+    rewrite b2n_n2b by lia. rewrite N.mod_small by lia. split; [split; [reflexivity|lia]|lia].
+  - destruct (v <? 128) eqn:Hlt.
+    + cbn [varint_shape varint_val]. rewrite b2n_n2b by lia. rewrite N.mod_small by lia.
+      split; [left; split; [lia|reflexivity]|lia].
+    + assert (Hq : v / 128 < 2 ^ (7 * (N.of_nat (S k') - 1) + 1)).
+      { replace (7 * (N.of_nat (S (S k')) - 1) + 1) with (7 * (N.of_nat (S k') - 1) + 1 + 7) in Hv by lia.
+        rewrite N.pow_add_r in Hv. change (2^7) with 128 in Hv.
+        apply N.div_lt_upper_bound; lia. }
+      destruct (IH (v / 128) ltac:(lia) Hq) as [Hs Hval].
+      pose proof (N.mod_lt v 128 ltac:(lia)).
+      cbn [varint_shape varint_val]. rewrite b2n_n2b by lia. rewrite Hval.
+      split; [right; split; [lia|exact Hs]|].
+      replace ((v mod 128 + 128) mod 128) with (v mod 128) by lia.
+      pose proof (N.div_mod v 128). lia.
+Qed.
+
+Lemma enc_varint_shape v : v < 2^64 -> varint_bytes (enc_varint v) /\ varint_val (enc_varint v) = v.
+Proof. intros H. apply enc_fuel_shape; [lia|exact H]. Qed.
+
+(* canonical digit strings: non-empty, top digit non-zero *)
+Definition canonical (p : list byte) : Prop := exists i l, p = i ++ [l] /\ b2n l mod 128 <> 0.
+
+Lemma canonical_lower p : canonical p -> 128 ^ (N.of_nat (length p) - 1) <= varint_val p.
+Proof.
+  intros (i & l & -> & Hl). induction i as [|b i IH].
+  - cbn. lia.
+  - cbn [app varint_val length]. rewrite app_length in *. cbn [length] in *.
+    replace (N.of_nat (S (length i + 1)) - 1) with (N.succ (N.of_nat (length i + 1) - 1)) by lia.
+    rewrite N.pow_succ_r'. lia.
+Qed.
+
+Lemma enc_fuel_canonical : forall k v,
+  (0 < k)%nat -> 0 < v -> v < 2^(7 * (N.of_nat k - 1) + 1) -> canonical (enc_varint_fuel k v).
+Proof.
+  induction k as [|k IH]; intros v Hk Hv Hcap; [lia|].
+  cbn [enc_varint_fuel]. destruct (v <? 128) eqn:Hlt.
+  - exists [], (n2b v). split; [reflexivity|]. rewrite b2n_n2b by lia. rewrite N.mod_small by lia. lia.
+  - destruct k as [|k'].
+    + replace (7 * (N.of_nat 1 - 1) + 1) with 1 in Hcap by lia. change (2^1) with 2 in Hcap. lia.
+    + assert (Hq : v / 128 < 2 ^ (7 * (N.of_nat (S k') - 1) + 1)).
+      { replace (7 * (N.of_nat (S (S k')) - 1) + 1) with (7 * (N.of_nat (S k') - 1) + 1 + 7) in Hcap by lia.
+        rewrite N.pow_add_r in Hcap. change (2^7) with 128 in Hcap.
+        apply N.div_lt_upper_bound; lia. }
+      destruct (IH (v / 128) ltac:(lia) ltac:(lia) Hq) as (i & l & E & Hl).
+      exists (n2b (v mod 128 + 128) :: i), l. rewrite E. split; [reflexivity|exact Hl].
+Qed.
+
+(* the closed form of SizeVarint counts base-128 digits *)
+Lemma size_varint_digits v k :
+  0 < v -> (1 <= k <= 10) -> 128^(k-1) <= v < 128^k -> size_varint v = k.
+Proof.
+  intros Hv Hk [Hlo Hhi]. unfold size_varint.
+  rewrite N.size_log2 by lia.
+  assert (H7 : forall n, 128^n = 2^(7*n)) by (intros n; rewrite N.pow_mul_r; reflexivity).
+  rewrite H7 in Hlo, Hhi.
+  apply N.log2_le_pow2 in Hlo; [|exact Hv].
+  apply N.log2_lt_pow2 in Hhi; [|exact Hv].
+  lia.
+Qed.
+
+Lemma size_varint_upper v k : (1 <= k <= 10) -> v < 128^k -> size_varint v <= k.
+Proof.
+  intros Hk Hhi. unfold size_varint. destruct (N.eq_dec v 0) as [->|Hv].
+  - cbn. lia.
+  - rewrite N.size_log2 by lia.
+    assert (H7 : 128^k = 2^(7*k)) by (rewrite N.pow_mul_r; reflexivity).
+    rewrite H7 in Hhi. apply N.log2_lt_pow2 in Hhi; lia.
+Qed.
+
+Lemma canonical_size p : canonical p -> (length p <= 10)%nat -> size_varint (varint_val p) = N.of_nat (length p).
+Proof.
+  intros Hc Hlen. pose proof (canonical_lower p Hc) as Hlo. pose proof (varint_val_lt p) as Hhi.
+  assert (1 <= length p)%nat by (destruct Hc as (i & l & -> & _); rewrite app_length; cbn; lia).
+  assert (0 < 128 ^ (N.of_nat (length p) - 1)) by (apply N.neq_0_lt_0, N.pow_nonzero; discriminate).
+  apply size_varint_digits; lia.
+Qed.
+
+Theorem enc_varint_length v : v < 2^64 -> N.of_nat (length (enc_varint v)) = size_varint v.
+Proof.
+  intros Hv. destruct (N.eq_dec v 0) as [->|Hnz]; [reflexivity|].
+  destruct (enc_varint_shape v Hv) as [Hs Hval].
+  pose proof (varint_shape_len _ _ Hs).
+  rewrite <- Hval at 2. symmetry. apply canonical_size; [|lia].
+  apply enc_fuel_canonical; [lia|lia|exact Hv].
+Qed.
+
+Lemma size_varint_range v : v < 2^64 -> 1 <= size_varint v <= 10.
+Proof.
+  intros Hv. rewrite <- enc_varint_length by exact Hv.
+  destruct (enc_varint_shape v Hv) as [Hs _]. apply varint_shape_len in Hs. lia.
+Qed.
+
+(* minimality: every byte string that decodes to v is at least as long as enc_varint v *)
+Theorem varint_minimal bs v r :
+  dec_varint bs = Ok (v, r) -> (length (enc_varint v) <= length bs - length r)%nat.
+Proof.
+  intros H. pose proof (dec_varint_bound _ _ _ H) as Hb.
+  apply dec_varint_sound in H. destruct H as (p & -> & Hs & <-).
+  rewrite app_length. replace (length p + length r - length r)%nat with (length p) by lia.
+  pose proof (varint_shape_len _ _ Hs).
+  pose proof (enc_varint_length (varint_val p) Hb).
+  pose proof (size_varint_upper (varint_val p) (N.of_nat (length p)) ltac:(lia) (varint_val_lt p)). lia.
+Qed.
+
+(* length = max 1 (ceil (bitlen / 7)) *)
+Theorem enc_varint_length_bits v :
+  v < 2^64 -> N.of_nat (length (enc_varint v)) = N.max 1 ((N.size v + 6) / 7).
+Proof.
+  intros Hv. rewrite enc_varint_length by exact Hv. unfold size_varint.
+  assert (N.size v <= 64).
+  { destruct (N.eq_dec v 0) as [->|Hnz]; [cbn; lia|]. rewrite N.size_log2 by lia.
+    apply N.log2_lt_pow2 in Hv; lia. }
+  lia.
+Qed.
+
+(* decoding consumes at least one byte and never more than the input *)
+Lemma dec_varint_suffix bs v r : dec_varint bs = Ok (v, r) -> exists p, bs = p ++ r /\ (1 <= length p <= 10)%nat.
+Proof.
+  intros H. apply dec_varint_sound in H. destruct H as (p & -> & Hs & _).
+  exists p. split; [reflexivity|]. now apply varint_shape_len.
+Qed.
+
+Lemma dec_aux_not_fuel : forall k s a bs, dec_varint_aux k s a bs <> Err OutOfFuel.
+Proof.
+  induction k as [|k IH]; intros s a bs; cbn [dec_varint_aux]; [discriminate|].
+  destruct bs as [|b t]; [discriminate|]. destruct k as [|k'].
+  - destruct (b2n b <? 2); discriminate.
+  - destruct (b2n b <? 128); [discriminate|]. apply IH.
+Qed.
+Lemma dec_varint_not_fuel bs : dec_varint bs <> Err OutOfFuel.
+Proof. apply dec_aux_not_fuel. Qed.
+
+(* the result on an extended input: anything but Truncated is already decided *)
+Lemma dec_aux_ext : forall k shift acc bs ext,
+  match dec_varint_aux k shift acc bs with
+  | Ok (v, r) => dec_varint_aux k shift acc (bs ++ ext) = Ok (v, r ++ ext)
+  | Err Truncated => True
+  | Err e => dec_varint_aux k shift acc (bs ++ ext) = Err e
+  end.
+Proof.
+  induction k as [|k IH]; intros shift acc bs ext; cbn [dec_varint_aux]; [reflexivity|].
+  destruct bs as [|b t]; [exact I|]. cbn [app]. destruct k as [|k'].
+  - destruct (b2n b <? 2); reflexivity.
+  - destruct (b2n b <? 128); [reflexivity|]. apply IH.
+Qed.
+
+Lemma dec_varint_ext bs ext :
+  match dec_varint bs with
+  | Ok (v, r) => dec_varint (bs ++ ext) = Ok (v, r ++ ext)
+  | Err Truncated => True
+  | Err e => dec_varint (bs ++ ext) = Err e
+  end.
+Proof. apply dec_aux_ext. Qed.
+
+(* a proper prefix of a varint is reported as Truncated *)
+Lemma dec_aux_prefix : forall k p shift acc q1 q2,
+  varint_shape k p -> p = q1 ++ q2 -> q2 <> [] -> dec_varint_aux k shift acc q1 = Err Truncated.
+Proof.
+  induction k as [|k IH]; intros p shift acc q1 q2 Hs E Hq2; [destruct p; contradiction|].
+  destruct p as [|b t]; [contradiction|]. cbn [dec_varint_aux].
+  destruct q1 as [|b1 q1']; [reflexivity|]. cbn [app] in E. inversion E; subst b1 t. clear E.
+  pose proof (b2n_lt b). cbn [varint_shape] in Hs. destruct k as [|k'].
+  - destruct Hs as [Hn _]. destruct q1'; destruct q2; try discriminate; congruence.
+  - destruct Hs as [[_ Hn]|[Hb Hs]].
+    + destruct q1'; destruct q2; try discriminate; congruence.
+    + replace (b2n b <? 128) with false by lia. eapply IH; eauto.
 Qed.
